@@ -298,3 +298,21 @@ def wire_style(r):
     if x < 0.95:
         return [r.choice([1, 2, 3]), r.choice([None, 1, 2])]
     return [4, 4]
+
+
+RAW_TAGS = [25, 25, 6, 7, 8, 9, 10, 11, 12, 13, 14, 15, 16, 26, 30, 31, 100]
+
+
+def byz_raw_op(r, mid):
+    """A well-formed LDAPMessage whose protocolOp is one the library does not implement (RFC 4511 operations such as
+    IntermediateResponse [25], modify, add, delete, compare, abandon, or a future one)."""
+    from . import ber
+
+    tag = r.choice(RAW_TAGS)
+    if tag == 25:
+        body = r.choice([b"", ber.octets(b"1.3.6.1.4.1.4203.1.9.1.4", ber.CONTEXT, 0) + ber.octets(b"\x01", ber.CONTEXT, 1)])
+    elif tag == 10 or tag == 16:
+        return {"t": "RawOp", "id": mid, "controls": [], "tag": tag, "constructed": False, "body": (b"cn=x" if tag == 10 else b"\x01").hex()}
+    else:
+        body = r.choice([b"", ber.enumerated(0) + ber.octets(b"") + ber.octets(b"")])
+    return {"t": "RawOp", "id": mid, "controls": [], "tag": tag, "constructed": True, "body": body.hex()}
